@@ -416,21 +416,31 @@ func c05Handwritten(r *fw.Rec) {
 		"undefined/local-in-other-function": "define i32 @f(i32 %x) {\n  ret i32 %x\n}\ndefine i32 @g() {\n  ret i32 %x\n}\n",
 		"undefined/numbered-local":          "define i32 @f(i32) {\n  ret i32 %7\n}\n",
 		"undefined/numbered-global":         "@0 = global i32 0\n@g = global i32* @5\n",
-		"duplicate/param":                   "define void @f(i32 %x, i32 %x) {\n  ret void\n}\n",
-		"duplicate/param-and-inst":          "define i32 @f(i32 %x) {\n  %x = add i32 1, 2\n  ret i32 %x\n}\n",
-		"duplicate/label-and-inst":          "define i32 @f() {\nx:\n  %x = add i32 1, 2\n  ret i32 %x\n}\n",
-		"duplicate/global-and-function":     "@f = global i32 0\ndefine void @f() {\n  ret void\n}\n",
-		"duplicate/alias-and-global":        "@g = global i32 0\n@a = alias i32, i32* @g\n@a = global i32 1\n",
-		"duplicate/numbered-global":         "@0 = global i32 0\n@0 = global i32 1\n",
-		"duplicate/type-opaque-then-twice":  "%T = type opaque\n%T = type { i32 }\n%T = type { i64 }\n@g = global %T* null\n",
-		"selfref/type-alias-cycle":          "%a = type %b\n%b = type %a\n@g = global i32 0\n",
+		// an unquoted all-digit token is an ID however long; it is never the name spelled with those digits
+		"undefined/id-beyond-int64-is-not-a-name/local":  "define i32 @f(i32 %\"99999999999999999999\") {\n  ret i32 %99999999999999999999\n}\n",
+		"undefined/id-beyond-int64-is-not-a-name/global": "@\"99999999999999999999\" = global i32 0\n@p = global i32* @99999999999999999999\n",
+		"undefined/id-beyond-int64-is-not-a-name/type":   "%\"99999999999999999999\" = type { i32 }\n@g = global %99999999999999999999 zeroinitializer\n",
+		"undefined/id-beyond-int64-is-not-a-name/label":  "define void @f() {\n\"99999999999999999999\":\n  br label %99999999999999999999\n}\n",
+		"undefined/id-beyond-int64-is-not-a-name/callee": "declare void @\"18446744073709551616\"()\ndefine void @f() {\n  call void @18446744073709551616()\n  ret void\n}\n",
+		"duplicate/param":                  "define void @f(i32 %x, i32 %x) {\n  ret void\n}\n",
+		"duplicate/param-and-inst":         "define i32 @f(i32 %x) {\n  %x = add i32 1, 2\n  ret i32 %x\n}\n",
+		"duplicate/label-and-inst":         "define i32 @f() {\nx:\n  %x = add i32 1, 2\n  ret i32 %x\n}\n",
+		"duplicate/global-and-function":    "@f = global i32 0\ndefine void @f() {\n  ret void\n}\n",
+		"duplicate/alias-and-global":       "@g = global i32 0\n@a = alias i32, i32* @g\n@a = global i32 1\n",
+		"duplicate/numbered-global":        "@0 = global i32 0\n@0 = global i32 1\n",
+		"duplicate/type-opaque-then-twice": "%T = type opaque\n%T = type { i32 }\n%T = type { i64 }\n@g = global %T* null\n",
+		"selfref/type-alias-cycle":         "%a = type %b\n%b = type %a\n@g = global i32 0\n",
 		// a block of a function that has no body cannot be named
-		"undefined/blockaddress-in-declaration":               "@a = global i8* blockaddress(@f, %bb)\ndeclare void @f()\n",
-		"undefined/blockaddress-in-declaration-numbered":      "declare void @f()\ndefine i8* @g() {\n  ret i8* blockaddress(@f, %1)\n}\n",
-		"undefined/blockaddress-in-declaration-table":         "declare void @f()\n@t = constant [2 x i8*] [i8* blockaddress(@f, %a), i8* blockaddress(@f, %b)]\n",
-		"undefined/blockaddress-of-variable":                  "@v = global i32 0\n@a = global i8* blockaddress(@v, %bb)\n",
-		"undefined/comdat-bare-on-function":                   "define void @f() comdat {\n  ret void\n}\n",
-		"undefined/comdat-on-global":                          "@g = global i32 0, comdat($missing)\n",
+		"undefined/blockaddress-in-declaration":          "@a = global i8* blockaddress(@f, %bb)\ndeclare void @f()\n",
+		"undefined/blockaddress-in-declaration-numbered": "declare void @f()\ndefine i8* @g() {\n  ret i8* blockaddress(@f, %1)\n}\n",
+		"undefined/blockaddress-in-declaration-table":    "declare void @f()\n@t = constant [2 x i8*] [i8* blockaddress(@f, %a), i8* blockaddress(@f, %b)]\n",
+		"undefined/blockaddress-of-variable":             "@v = global i32 0\n@a = global i8* blockaddress(@v, %bb)\n",
+		"undefined/comdat-bare-on-function":              "define void @f() comdat {\n  ret void\n}\n",
+		"undefined/comdat-on-global":                     "@g = global i32 0, comdat($missing)\n",
+		// the implicit comdat of an unnamed value has no name: it is not the comdat with the empty name
+		"undefined/implicit-comdat-of-unnamed-global":         "$\"\" = comdat any\n@0 = global i32 0, comdat\n",
+		"undefined/implicit-comdat-of-unnamed-function":       "$\"\" = comdat any\ndefine void @0() comdat {\n  ret void\n}\n",
+		"undefined/implicit-comdat-of-empty-named-global":     "$\"\" = comdat any\n@\"\" = global i32 0, comdat\n",
 		"undefined/metadata-attachment-on-global":             "@g = global i32 0, !dbg !9\n",
 		"undefined/metadata-attachment-on-inst":               "define void @f() {\n  ret void, !dbg !9\n}\n",
 		"undefined/metadata-attachment-on-function":           "define void @f() !dbg !9 {\n  ret void\n}\n",
